@@ -21,6 +21,11 @@ import time
 VERIF = "/verif"
 REPO = "/repo"
 BIN_DIR = os.path.join(VERIF, ".build", "subject", "debug")
+# Developer use only (evaluating a seeded change without touching /repo): binaries of a scratch build.
+# Registered checks never set it; a run with it set says so and its evidence must not be kept.
+if os.environ.get("VERIF_DEV_SUBJECT_BIN_DIR"):
+    BIN_DIR = os.environ["VERIF_DEV_SUBJECT_BIN_DIR"]
+    print(f"WARNING: subject binaries overridden: {BIN_DIR}", file=sys.stderr)
 RUSTFMT = os.path.join(BIN_DIR, "rustfmt")
 CARGO_FMT = os.path.join(BIN_DIR, "cargo-fmt")
 FORMAT_DIFF = os.path.join(BIN_DIR, "rustfmt-format-diff")
